@@ -683,6 +683,24 @@ func (x *Exec) evalCall(env *Env, e *Expr) (Val, error) {
 			return nil, fmt.Errorf("anydenom(k)")
 		}
 		return Sym("any_denom_"+e.Args[0].Num.String(), SStr), nil
+	case "itpos": // itpos(k0, k1, ...): position of a key in the enumeration of the current iterator
+		it, ok := env.vars["$iter"].(*IterState)
+		id, ok2 := env.vars["$iterid"].(int)
+		if !ok || !ok2 {
+			return nil, fmt.Errorf("itpos: no iterator in scope")
+		}
+		var ks []*Term
+		for i := range e.Args {
+			t, err := argT(i)
+			if err != nil {
+				return nil, err
+			}
+			ks = append(ks, t)
+		}
+		if len(ks) != len(it.Fam.KeySorts) {
+			return nil, fmt.Errorf("itpos: expected %d key components", len(it.Fam.KeySorts))
+		}
+		return UF(fmt.Sprintf("it%d_pos", id), SInt, it.Fam.key(ks)), nil
 	case "nftkey":
 		if err := need(2); err != nil {
 			return nil, err
